@@ -177,6 +177,10 @@ pub struct TowerSys {
     pub uuid_of: HashMap<Vec<u8>, (u32, u32)>,
     pub users_seen: BTreeSet<u32>,
     pub dead: bool,
+    /// when set, requests travel through the real HTTP API (JSON over TCP -> warp -> gRPC -> InternalAPI)
+    pub http: Option<std::sync::Arc<crate::httpfront::HttpFront>>,
+    /// (HTTP status, error code) of the last request sent through the HTTP API
+    pub last_http: Option<(u16, u32)>,
 }
 
 fn db_dir() -> PathBuf {
@@ -353,6 +357,8 @@ impl TowerSys {
             uuid_of: HashMap::new(),
             users_seen: BTreeSet::new(),
             dead: false,
+            http: None,
+            last_http: None,
         }
     }
 
@@ -533,7 +539,9 @@ impl TowerSys {
                 let pk = user_key(*user).pk;
                 let api = self.api.clone();
                 let req = common_msgs::RegisterRequest { user_id: UserId(pk).to_vec() };
-                let res = catch_unwind(AssertUnwindSafe(|| self.rt.block_on(api.register(Request::new(req)))));
+                let _ = &api;
+                let req2 = req.clone();
+                let res = self.via("register", &req, move |rt, api| rt.block_on(api.register(Request::new(req2))));
                 let line = format!("tw reg u{user}");
                 match res {
                     Err(_) => self.panicked(&line, rep),
@@ -587,7 +595,9 @@ impl TowerSys {
                     }),
                     signature: sigs.clone(),
                 };
-                let res = catch_unwind(AssertUnwindSafe(|| self.rt.block_on(api.add_appointment(Request::new(req)))));
+                let _ = &api;
+                let req2 = req.clone();
+                let res = self.via("add_appointment", &req, move |rt, api| rt.block_on(api.add_appointment(Request::new(req2))));
                 let (rpc, named) = self.rpc_log();
                 match res {
                     Err(_) => self.panicked(&line, rep),
@@ -619,7 +629,9 @@ impl TowerSys {
                 let line = format!("tw get {signer} l{loc} {}", sig.token());
                 let api = self.api.clone();
                 let req = common_msgs::GetAppointmentRequest { locator: locator.to_vec(), signature: sigs };
-                let res = catch_unwind(AssertUnwindSafe(|| self.rt.block_on(api.get_appointment(Request::new(req)))));
+                let _ = &api;
+                let req2 = req.clone();
+                let res = self.via("get_appointment", &req, move |rt, api| rt.block_on(api.get_appointment(Request::new(req2))));
                 match res {
                     Err(_) => self.panicked(&line, rep),
                     Ok(Ok(r)) => {
@@ -662,7 +674,9 @@ impl TowerSys {
                 let line = format!("tw sub {signer} {}", sig.token());
                 let api = self.api.clone();
                 let req = common_msgs::GetSubscriptionInfoRequest { signature: sigs };
-                let res = catch_unwind(AssertUnwindSafe(|| self.rt.block_on(api.get_subscription_info(Request::new(req)))));
+                let _ = &api;
+                let req2 = req.clone();
+                let res = self.via("get_subscription_info", &req, move |rt, api| rt.block_on(api.get_subscription_info(Request::new(req2))));
                 match res {
                     Err(_) => self.panicked(&line, rep),
                     Ok(Ok(r)) => {
@@ -749,6 +763,48 @@ impl TowerSys {
 
     pub fn set_tables(&mut self, send: &BTreeMap<u32, SendR>, get: &BTreeMap<u32, GetR>) {
         self.set_node(send, get);
+    }
+
+    /// one public request: straight into `InternalAPI`, or through the real HTTP API when a front is attached
+    pub fn via<Req: serde::Serialize, Resp: serde::de::DeserializeOwned>(
+        &mut self,
+        endpoint: &str,
+        req: &Req,
+        direct: impl FnOnce(&tokio::runtime::Runtime, Arc<InternalAPI>) -> Result<tonic::Response<Resp>, tonic::Status>,
+    ) -> std::thread::Result<Result<tonic::Response<Resp>, tonic::Status>> {
+        let Some(front) = self.http.clone() else {
+            let api = self.api.clone();
+            let rt = &self.rt;
+            return catch_unwind(AssertUnwindSafe(|| direct(rt, api)));
+        };
+        let body = serde_json::to_vec(req).unwrap();
+        let Some(r) = front.post(&format!("/{endpoint}"), &body) else {
+            self.last_http = Some((0, 0));
+            return Ok(Err(tonic::Status::new(tonic::Code::DeadlineExceeded, "no answer from the HTTP API")));
+        };
+        if r.status == 200 {
+            self.last_http = Some((200, 0));
+            return match serde_json::from_slice::<Resp>(&r.body) {
+                Ok(x) => Ok(Ok(tonic::Response::new(x))),
+                Err(e) => Ok(Err(tonic::Status::new(tonic::Code::DataLoss, format!("reply does not parse: {e}")))),
+            };
+        }
+        let v: serde_json::Value = serde_json::from_slice(&r.body).unwrap_or(serde_json::Value::Null);
+        let code = v["error_code"].as_u64().unwrap_or(9999) as u32;
+        self.last_http = Some((r.status, code));
+        let msg = v["error"].as_str().unwrap_or("").to_string();
+        use teos_common::errors as e;
+        let grpc = match code as u8 {
+            x if x == e::WRONG_FIELD_FORMAT => tonic::Code::InvalidArgument,
+            x if x == e::APPOINTMENT_NOT_FOUND => tonic::Code::NotFound,
+            x if x == e::APPOINTMENT_ALREADY_TRIGGERED => tonic::Code::AlreadyExists,
+            x if x == e::REGISTRATION_RESOURCE_EXHAUSTED => tonic::Code::ResourceExhausted,
+            x if x == e::INVALID_SIGNATURE_OR_SUBSCRIPTION_ERROR => tonic::Code::Unauthenticated,
+            x if x == e::SERVICE_UNAVAILABLE => tonic::Code::Unavailable,
+            x if x == e::UNEXPECTED_ERROR => return Err(Box::new("handler failed behind the HTTP API (error code 255)")),
+            _ => tonic::Code::Unknown,
+        };
+        Ok(Err(tonic::Status::new(grpc, msg)))
     }
 
     fn panicked(&mut self, line: &str, rep: &mut Report) -> (Outcome, Vec<(String, u32)>) {
